@@ -34,7 +34,8 @@ REQUIRED = ["stop_on_delay", "nested_warps", "overlapping_warps", "touching_warp
             "bpm_change_inside_warp", "pause_at_beat_0", "negative_beat_probe", "corpus", "three_warps_one_union",
             "different_kinds_on_adjacent_ticks", "warp_one_tick_after_a_stop", "pause_seconds_equal_a_bpm_value",
             "pause_boundary_at_time_zero", "timing_read_from_sm_freezes", "values_in_exponent_or_plus_sign_spelling",
-            "chart_with_empty_timing_properties_named"]
+            "chart_with_empty_timing_properties_named", "timing_on_the_chart_of_a_version_0_7_simfile",
+            "chart_timing_without_an_offset_of_its_own", "warp_shorter_than_half_a_tick"]
 TOL = Fraction(1, 10**9)
 
 
